@@ -156,7 +156,7 @@ def emit_file(path, module_comment, blocks, emitter=None):
     lines = ["(* GENERATED by tools/nif2ir.py -- do not edit. %s *)" % module_comment,
              "From NiflyVerif Require Import IR.", "Local Open Scope N_scope.", ""]
     table = []
-    for i, (bname, cls, ir, init) in enumerate(blocks):
+    for (bname, cls, ir, init, i) in blocks:
         d = ident(cls)
         lines.append("(* %s: constructor constants, then the Sync chain *)" % bname)
         lines.append("Definition %s_init : stmt :=\n  %s." % (d, em.stmt(init)))
